@@ -6,6 +6,7 @@ package main
 import (
 	"bytes"
 	"fmt"
+	"runtime"
 	"strconv"
 	"sync"
 	"sync/atomic"
@@ -608,6 +609,70 @@ func keyMapRound(w *W, idx int) {
 // triggerDropDuringCommit forces the one schedule a random drop rarely hits: the commit is inside
 // the callback of the first trigger of a column when another goroutine drops that trigger; the
 // triggers behind it must still be called exactly once for that store.
+// triggerChangedWhileTxnOpen: a transaction has already touched the watched column (read and buffered
+// a store) when, from another goroutine, one trigger on that column is created and another dropped;
+// both calls return before the transaction body does. The commit happens after both: the new trigger
+// must be told every store and the row delete of that commit, the dropped one nothing.
+func triggerChangedWhileTxnOpen(w *W, idx int, caseID string) {
+	c := stressCollection(64, false)
+	defer c.Close()
+	var offs []uint32
+	c.Query(func(txn *column.Txn) error {
+		for i := 0; i < 4; i++ {
+			off, _ := txn.Insert(func(r column.Row) error { r.SetInt64("a", 1); r.SetInt64("m", 1); return nil })
+			offs = append(offs, off)
+		}
+		return nil
+	})
+	// a row in block 1
+	{
+		mkb := func(name string) *commit.Buffer { b := commit.NewBuffer(64); b.Reset(name); return b }
+		rb, ab := mkb("row"), mkb("a")
+		rb.PutOperation(commit.Insert, 16384+9)
+		ab.PutInt64(commit.Put, 16384+9, 1)
+		if err := c.Replay(commit.Commit{ID: 1, Chunk: 1, Updates: []*commit.Buffer{rb, ab}}); err != nil {
+			panic(err)
+		}
+		offs = append(offs, 16384+9)
+	}
+	var oldPuts, oldDels, newPuts, newDels int32
+	c.CreateTrigger("old", "a", func(r column.Reader) {
+		if r.IsDelete() {
+			atomic.AddInt32(&oldDels, 1)
+		} else {
+			atomic.AddInt32(&oldPuts, 1)
+		}
+	})
+	touched, changed := make(chan struct{}), make(chan struct{})
+	go func() {
+		<-touched
+		c.CreateTrigger("new", "a", func(r column.Reader) {
+			if r.IsDelete() {
+				atomic.AddInt32(&newDels, 1)
+			} else {
+				atomic.AddInt32(&newPuts, 1)
+			}
+		})
+		c.DropTrigger("old")
+		close(changed)
+	}()
+	c.Query(func(txn *column.Txn) error {
+		txn.QueryAt(offs[0], func(r column.Row) error { r.SetInt64("a", 10); return nil })
+		close(touched)
+		<-changed // both schema calls have returned
+		txn.QueryAt(offs[1], func(r column.Row) error { r.MergeInt64("a", 5); return nil })
+		txn.QueryAt(offs[4], func(r column.Row) error { r.SetInt64("a", 11); return nil })
+		txn.DeleteAt(offs[2])
+		return nil
+	})
+	w.Stat("forced_trigger_change_while_transaction_open", 1)
+	np, nd, op, od := atomic.LoadInt32(&newPuts), atomic.LoadInt32(&newDels), atomic.LoadInt32(&oldPuts), atomic.LoadInt32(&oldDels)
+	if np != 3 || nd != 1 || op != 0 || od != 0 {
+		w.Violate(idx, caseID, fmt.Sprintf("[trigger] a transaction stores to column a of three rows (two blocks; one store buffered before, two after the schema calls) and deletes a row; while it is open another goroutine creates trigger 'new' on a and drops trigger 'old' (both calls returned before the transaction body did): 'new' was told %d stores and %d deletes (expected 3 and 1), 'old' %d stores and %d deletes (expected none)", np, nd, op, od), "",
+			map[string]any{"idx": idx, "race": true, "engine": "E3"})
+	}
+}
+
 func triggerDropDuringCommit(w *W, idx int, caseID string) {
 	c := stressCollection(64, false)
 	defer c.Close()
@@ -645,6 +710,7 @@ func triggerRound(w *W, idx int) {
 	caseID := fmt.Sprintf("E3:trigger-beside-drops:round%d", idx)
 	w.Begin(idx, caseID)
 	triggerDropDuringCommit(w, idx, caseID)
+	triggerChangedWhileTxnOpen(w, idx, caseID)
 	c := stressCollection(1000, false)
 	defer c.Close()
 	hook := &stressHook{delayPct: 25, seed: w.Seed + int64(idx)}
@@ -1251,5 +1317,81 @@ func growRound(w *W, idx int) {
 	w.Eval(hashOf("grow", idx, growths), readbacks > 100 && growths > 0)
 	if lost > 0 {
 		w.Violate(idx, caseID, fmt.Sprintf("[lost-update] %d of %d read-backs; first: %s", lost, readbacks, first.Load()), "", map[string]any{"idx": idx})
+	}
+}
+
+// ---------------------------------------------------------------------------------------------
+// C09: merges into a block that does not exist yet. Several transactions, started together, merge
+// into the same cell of a row in the next block beyond the collection's extent; the first to
+// commit creates the block, the others find it there. Every committed delta must be in the cell.
+// (The row is not live: the library stores to any offset through QueryAt. Only a cell that reads
+// back present with part of the deltas is a violation; a cell reported absent is not judged.)
+// The merge function is user code and yields the processor, as a slow one would.
+
+func mergeNewBlockRound(w *W, idx int) {
+	caseID := fmt.Sprintf("E3:merge-into-new-block:round%d", idx)
+	w.Begin(idx, caseID)
+	iters, absent, lostAt := int64(0), int64(0), ""
+	colls := 6
+	if w.Thorough() {
+		colls = 30
+	}
+	for ci := 0; ci < colls && lostAt == ""; ci++ {
+		c := column.NewCollection(column.Options{Capacity: 64, Vacuum: 1 << 40})
+		c.CreateColumn("n", column.ForInt64(column.WithMerge(func(v, d int64) int64 {
+			runtime.Gosched()
+			return v + d
+		})))
+		c.CreateColumn("s", column.ForString(column.WithMerge(func(v, d string) string {
+			runtime.Gosched()
+			return v + d
+		})))
+		c.Insert(func(r column.Row) error { r.SetInt64("n", 1); return nil })
+		const mergers = 6
+		for blk := uint32(1); blk <= 12 && lostAt == ""; blk++ {
+			row := blk<<14 + uint32(ci*7)%1000
+			start := make(chan struct{})
+			var wg sync.WaitGroup
+			for g := 0; g < mergers; g++ {
+				g := g
+				wg.Add(1)
+				go func() {
+					defer wg.Done()
+					<-start
+					c.QueryAt(row, func(r column.Row) error {
+						r.MergeInt64("n", int64(1)<<(8*uint(g)))
+						r.MergeString("s", string(rune('a'+g)))
+						return nil
+					})
+				}()
+			}
+			close(start)
+			wg.Wait()
+			iters++
+			want := int64(0)
+			for g := 0; g < mergers; g++ {
+				want += int64(1) << (8 * uint(g))
+			}
+			c.QueryAt(row, func(r column.Row) error {
+				n, ok := r.Int64("n")
+				s, _ := r.String("s")
+				if !ok {
+					absent++ // a library that refuses stores to rows that are not live yet is not judged here
+					return nil
+				}
+				if n != want || len(s) != mergers {
+					lostAt = fmt.Sprintf("%d transactions each merged a distinct power of 256 into n and one letter into s of row %d (first row written in block %d, which no transaction had committed to before): n reads %#x (present=%v), expected %#x; s reads %q", mergers, row, blk, n, ok, want, s)
+				}
+				return nil
+			})
+		}
+		c.Close()
+	}
+	w.Stat("new_block_merge_groups", iters)
+	w.Stat("new_block_merges", iters*6)
+	w.Stat("new_block_cells_reported_absent", absent)
+	w.Eval(hashOf("merge-new-block", idx), iters > absent)
+	if lostAt != "" {
+		w.Violate(idx, caseID, "[lost-merge] "+lostAt, "", map[string]any{"idx": idx})
 	}
 }
